@@ -41,11 +41,16 @@ _add('C02',
 _add('C04',
      'T1 C04_sound (Coq): on every accepted trace server<->customer attachment is a bijection in every snapshot, on-duty count = c, '
      'an attachment persists until a release/interruption of that customer, service intervals of one server id are pairwise disjoint '
-     '(interval-packing lemma over Z) and the reported busy/total times equal the time attached to customers, hence utilisation in [0,1]. '
-     'K1: every observed run is accepted.')
+     '(interval-packing lemma over Z) and the reported busy/total times equal the time attached to customers, hence utilisation in [0,1] (also for servers a non-pre-emptive Schedule has retired, and for runs made in several calls). '
+     'K1: every observed run is accepted. T2 event_step_srv / run_many_srv / engine_servers / server_stays (Coq, Inv/Servers.v, engine model stage 1): for every configuration, every state satisfying the invariant and every oracle of draws, after any number of events: '
+     'c servers with distinct ids, busy iff holding a customer, server->customer and customer->server are mutually inverse (no sharing), at most c in service; and over each event a busy server keeps its customer (blocked or not) '
+     'until that customer\'s service record at that node is written. K2 ties the model to the code step by step; the extracted test srv_b (srv_b_sound) holds on the initial and every later real snapshot visited.')
 _add('C05',
      'T1 C05_sound (Coq): in every accepted snapshot of a non-slotted finite-server node, a waiting customer implies every on-duty server '
-     'is busy; every positive wait ends in a frame containing a capacity-freeing event at that node. K1 on all regions.')
+     'is busy; every positive wait ends in a frame containing a capacity-freeing event at that node. K1 on all regions. '
+     'T2 event_step_ni / run_many_ni / engine_nonidle (Coq, Inv/NonIdle.v on top of Inv/Servers.v; engine model stage 1: fixed finite servers, blocking, priorities, all disciplines): for every configuration, '
+     'every state satisfying the invariant and every oracle of draws, after any number of events: whenever a customer of a node has no server every server of that node is busy, and the number of busy servers is '
+     'min(c, customers at the node). K2 ties the model to the code step by step; the extracted test ni_b (ni_b_sound) holds on the initial and every later real snapshot visited.')
 _add('C06',
      'T1 C06_sound (Coq): the acceptor replays the Spawn/Enter/Leave events of each frame from the previous populations; on accepted '
      'traces no node exceeds servers+queue capacity, the system never exceeds system capacity, and C06_rejected_iff_full: an external '
